@@ -89,6 +89,40 @@ def gen_case(r, big=False):
         W['netpols'].append({'ns': wl['ns'], 'name': 'keys', 'podSelector': {}, 'policyTypes': ['Ingress'],
                              'ingress': [{'from': [{'podSelector': {'matchLabels': {'app': 'ab', 'c': 'd'}}}], 'ports': [{'port': 80}]},
                                          {'from': [{'podSelector': {'matchLabels': {'app': 'a', 'bc': 'd'}}}], 'ports': [{'port': 81}]}]})
+    elif x < 0.95:
+        # one policy for both directions: everything (or the whole cluster) allowed in one direction, specific peers and ports in
+        # the other - the pre-scan flags of one direction must not short-cut the other
+        d = r.choice(['ingress', 'egress'])
+        o = 'egress' if d == 'ingress' else 'ingress'
+        key, okey = ('from', 'to') if d == 'ingress' else ('to', 'from')
+        wide = r.choice([{}, {okey: [{'namespaceSelector': {}}]}, {okey: [{'namespaceSelector': {}}, {'ipBlock': {'cidr': '0.0.0.0/0'}}]}])
+        other = r.choice(W['workloads'])
+        narrow = [{key: [{'podSelector': {'matchLabels': dict(other['labels']) if other['labels'] else {'app': 'x'}}}],
+                   'ports': [{'port': r.choice(gen.PORTS)}]},
+                  {key: [{'namespaceSelector': {'matchLabels': {'purpose': 'monitoring'}}}], 'ports': [{'port': r.choice(gen.PORTS), 'protocol': r.choice(gen.PROTOS)}]}]
+        W['netpols'].append({'ns': wl['ns'], 'name': 'crossdir', 'podSelector': r.choice([{}, {'matchLabels': dict(wl['labels'])}]),
+                             'policyTypes': ['Ingress', 'Egress'], o: [wide], d: narrow})
+    else:
+        # a workload governed in a direction by ipBlock rules only: protected, no exposure entry, but its IP rows must still be
+        # repeated in the exposure section
+        d = r.choice(['ingress', 'egress'])
+        key = 'from' if d == 'ingress' else 'to'
+        W['netpols'].append({'ns': wl['ns'], 'name': 'iponly', 'podSelector': {'matchLabels': dict(wl['labels'])} if wl['labels'] else {},
+                             'policyTypes': ['Ingress' if d == 'ingress' else 'Egress'],
+                             d: [{key: [{'ipBlock': {'cidr': r.choice(['10.0.0.0/8', '192.168.1.0/24', '0.0.0.0/1'])}}], 'ports': [{'port': r.choice(gen.PORTS)}]}]})
+    return W
+
+
+def ip_only_world(r):
+    """a world in which one workload is governed, in one direction, by ipBlock rules only (the other policies of its namespace are dropped)"""
+    W = gen.gen_world(r, anp=False)
+    wl = r.choice(W['workloads'])
+    W['netpols'] = [p for p in W['netpols'] if (p['ns'] or 'default') != wl['ns']]
+    d = r.choice(['ingress', 'egress'])
+    key = 'from' if d == 'ingress' else 'to'
+    W['netpols'].append({'ns': wl['ns'], 'name': 'iponly', 'podSelector': {'matchLabels': dict(wl['labels'])} if wl['labels'] else {},
+                         'policyTypes': ['Ingress' if d == 'ingress' else 'Egress'],
+                         d: [{key: [{'ipBlock': {'cidr': r.choice(['10.0.0.0/8', '192.168.1.0/24', '0.0.0.0/1'])}}], 'ports': [{'port': r.choice(gen.PORTS)}]}]})
     return W
 
 
